@@ -81,6 +81,13 @@ Section Interleave.
   Lemma exec_read o s : is_create o = false -> exec o s = (read_ans o s, s).
   Proof. destruct o; cbn; intros H; try reflexivity; discriminate. Qed.
 
+  (** a write is visible only to a lookup of that very id in the stored requests *)
+  Lemma read_ans_write o s id v : req_key o <> Some id -> read_ans o (write s id v) = read_ans o s.
+  Proof.
+    intros Hk. destruct o; cbn in *; try reflexivity.
+    destruct (beq id0 id) eqn:E; [|reflexivity]. apply beq_eq in E. subst. contradiction Hk. reflexivity.
+  Qed.
+
   Lemma beq_fresh_neq m n : m <> n -> beq (fresh m) (fresh n) = false.
   Proof. intros H. apply beq_neq. intros E. apply fresh_inj in E. contradiction. Qed.
 
@@ -135,10 +142,10 @@ Section Interleave.
     rewrite !beq_refl, ?F01, ?F10. repeat (split; [reflexivity|]).
     intros k.
     destruct (beq k (fresh (next s))) eqn:E0.
-    - apply beq_eq in E0. subst k. now rewrite F01, !beq_refl.
+    - apply beq_eq in E0. subst k. now rewrite F01, ?beq_refl.
     - destruct (beq k (fresh (S (next s)))) eqn:E1.
-      + now rewrite F10, beq_refl.
-      + now rewrite E1, E0.
+      + now rewrite ?F01, ?F10, ?beq_refl.
+      + now rewrite ?E1, ?E0.
   Qed.
 
   Theorem reads_commute :
@@ -230,7 +237,7 @@ Section Interleave.
   (** one atomic step of thread [i]: a finished or non-existent thread does nothing *)
   Definition step {A} (i : nat) (st : pool A * store) : pool A * store :=
     match nth_error (fst st) i with
-    | Some (Op o k) => (set_nth (fst st) i (k (fst (exec o (snd st)))), snd (exec o (snd st)))
+    | Some (Op o k) => @pair (pool A) store (set_nth (fst st) i (k (fst (exec o (snd st))))) (snd (exec o (snd st)))
     | _ => st
     end.
   (** what the step shows to its thread: (thread, answer) *)
@@ -258,7 +265,7 @@ Section Interleave.
   Lemma step_cases {A} i (ps : pool A) s :
     (step i (ps, s) = (ps, s) /\ emit i (ps, s) = []) \/
     (exists o k, nth_error ps i = Some (Op o k) /\
-       step i (ps, s) = (set_nth ps i (k (fst (exec o s))), snd (exec o s)) /\
+       step i (ps, s) = @pair (pool A) store (set_nth ps i (k (fst (exec o s)))) (snd (exec o s)) /\
        emit i (ps, s) = [(i, fst (exec o s))]).
   Proof.
     unfold step, emit. cbn [fst snd]. destruct (nth_error ps i) as [[a|o k]|] eqn:E; auto.
@@ -297,7 +304,7 @@ Section Interleave.
     - destruct (step_cases i ps s) as [[-> _]|(o & k & Hi & -> & _)]; [now apply IH|].
       destruct (Hall i _ Hi) as [Hro Hk]. rewrite (exec_read o s Hro). cbn [fst snd].
       destruct (IH (set_nth ps i (k (read_ans o s))) s) as [Hs Hth].
-      { apply pool_all_set_nth; auto. }
+      { apply pool_all_set_nth; [exact Hall|apply Hk]. }
       split; [exact Hs|]. intros j p Hj. destruct (Nat.eq_dec i j) as [->|Hne].
       + rewrite Hi in Hj. inversion Hj; subst p.
         destruct (Hth j _ (nth_error_set_nth_eq ps j _ _ Hi)) as (p' & Hp' & Hr).
@@ -333,7 +340,7 @@ Section Interleave.
   Proof.
     intros Hall Hq Hne sched sched' a a' H1 H2.
     destruct (nth_error ps i) as [p|] eqn:Hi.
-    - rewrite (isolation_readonly ps s0 Hall sched i p a Hi H1).
+    - rewrite (isolation_readonly ps s0 Hall sched i p a Hi H1). symmetry.
       apply (isolation_readonly (set_nth ps j q) s0 (pool_all_set_nth _ ps j q Hall Hq) sched' i p a'); [|exact H2].
       now rewrite nth_error_set_nth_neq.
     - exfalso. clear H2. revert ps s0 Hall Hi H1.
@@ -342,7 +349,7 @@ Section Interleave.
       + destruct (step_cases t ps s0) as [[E _]|(o & k & Ht & E & _)]; rewrite E in H1.
         * eapply IH; eauto.
         * destruct (Hall t _ Ht) as [Hro Hk]. eapply IH; [| |exact H1].
-          -- apply pool_all_set_nth; auto.
+          -- apply pool_all_set_nth; [exact Hall|apply Hk].
           -- rewrite nth_error_set_nth_neq; [exact Hi|]. intros ->. congruence.
   Qed.
 
@@ -371,10 +378,9 @@ Section Interleave.
       + reflexivity.
       + destruct (is_create o) eqn:Ho.
         * destruct o; try discriminate. cbn [exec fst snd alloc bump write next flat_map app] in *.
-          replace (next (snd (run_sched r (set_nth ps i (k (AId (fresh (next s)))), alloc s payload))) - next s)
-            with (S (next (snd (run_sched r (set_nth ps i (k (AId (fresh (next s)))), alloc s payload))) - S (next s)))
-            by (unfold alloc, bump in *; cbn [next] in *; lia).
-          reflexivity.
+          revert Hle. generalize (next (snd (run_sched r (@pair (pool A) store
+            (set_nth ps i (k (AId (fresh (next s))))) (alloc s payload))))).
+          intros m Hle. replace (m - next s) with (S (m - S (next s))) by lia. reflexivity.
         * rewrite (exec_read o s Ho) in *. cbn [fst snd flat_map app] in *.
           destruct o; try discriminate; cbn [read_ans]; unfold of_opt;
             repeat match goal with |- context [match ?x with Some _ => _ | None => _ end] => destruct x end;
@@ -394,7 +400,7 @@ Section Interleave.
     | Op o k => match log with [] => None | x :: r => replay (k x) r end
     end.
   (** the residual program after a log of answers *)
-  Fixpoint feed {A} (p : prog A) (log : list ans) : option (prog A) :=
+  Fixpoint feed {A} (p : prog A) (log : list ans) {struct log} : option (prog A) :=
     match log with
     | [] => Some p
     | x :: r => match p with Ret _ => None | Op o k => feed (k x) r end
@@ -486,9 +492,10 @@ Section Interleave.
     (forall k, K k -> K' k) -> reads_ok K p -> reads_ok K' p.
   Proof.
     induction p as [a|o k IH]; intros K K' HK H; [exact I|].
-    destruct o; cbn in *; try (intros x; eapply IH; eauto).
-    - destruct H as [H1 H2]. split; [auto|]. intros x; eapply IH; eauto.
-    - unfold add_key. intros k0 [->|Hk]; auto.
+    destruct o; cbn in *; try (intros x; apply (IH x K K' HK (H x))).
+    - destruct H as [H1 H2]. split; [auto|]. intros x; apply (IH x K K' HK (H2 x)).
+    - intros id. apply (IH (AId id) (add_key K id) (add_key K' id)); [|apply H].
+      unfold add_key. intros k0 [->|Hk]; auto.
   Qed.
   Lemma reads_ok_read_step {A} o (k : ans -> prog A) K : is_create o = false ->
     reads_ok K (Op o k) -> forall x, reads_ok K (k x).
@@ -526,8 +533,8 @@ Section Interleave.
       eapply IH; [apply Hr| |exact Hv]. now apply agree_write.
     - apply (log_valid_read o k _ x r ids Ho). apply (log_valid_read o k _ x r ids Ho) in Hv.
       destruct Hv as [-> Hv]. split.
-      + symmetry. apply (read_ans_agree K); [exact Ha|]. intros id Hid. eapply reads_ok_key; eauto.
-      + eapply IH; [|exact Ha|exact Hv]. now apply reads_ok_read_step.
+      + apply (read_ans_agree K); [exact Ha|]. intros id Hid. eapply reads_ok_key; eauto.
+      + eapply IH; [exact (reads_ok_read_step o k K Ho Hr _)|exact Ha|exact Hv].
   Qed.
 
   Lemma agree_bump K s : agree K (bump s) s.
@@ -574,7 +581,7 @@ Section Interleave.
           - intros j p Hj. eapply reads_ok_mono; [|exact (Hall j p Hj)]. apply old_key_S.
           - cbn in Hrt. eapply reads_ok_mono; [|exact (Hrt (fresh n))]. apply add_old_key_S. }
         destruct (IH _ _ Hall') as (idss & Hth & Hrange & Hdisj & Hnd).
-        pose proof (run_next_le sched (set_nth ps t (k x), alloc s v)) as Hle. cbn [snd] in Hle.
+        pose proof (run_next_le sched (@pair (pool A) store (set_nth ps t (k x)) (alloc s v))) as Hle. cbn [snd] in Hle.
         change (next (alloc s v)) with (S n) in *.
         exists (fun j => if Nat.eqb j t then n :: idss t else idss j).
         split; [|split; [|split]].
@@ -591,10 +598,10 @@ Section Interleave.
              assert (Hj' : nth_error (set_nth ps t (k x)) j = Some p) by now rewrite nth_error_set_nth_neq.
              destruct (Hth j p Hj') as [Hv Hf]. split; [|exact Hf].
              eapply log_valid_agree; [exact (Hall j p Hj)| |exact Hv]. apply agree_alloc_old.
-        * intros j m Hm. destruct (Nat.eqb j t).
+        * clearbody x; clearbody n. intros j m Hm. destruct (Nat.eqb j t).
           -- destruct Hm as [<-|Hm]; [lia|]. specialize (Hrange _ _ Hm). lia.
           -- specialize (Hrange _ _ Hm). lia.
-        * intros i j m Hi Hj.
+        * clearbody x; clearbody n. intros i j m Hi Hj.
           destruct (Nat.eqb i t) eqn:Ei; destruct (Nat.eqb j t) eqn:Ej.
           -- apply Nat.eqb_eq in Ei, Ej. congruence.
           -- destruct Hi as [<-|Hi]; [specialize (Hrange _ _ Hj); lia|].
@@ -602,7 +609,7 @@ Section Interleave.
           -- destruct Hj as [<-|Hj]; [specialize (Hrange _ _ Hi); lia|].
              apply Nat.eqb_eq in Ej. subst j. eauto.
           -- eauto.
-        * intros j. destruct (Nat.eqb j t); [|apply Hnd]. constructor; [|apply Hnd].
+        * clearbody x; clearbody n. intros j. destruct (Nat.eqb j t); [|apply Hnd]. constructor; [|apply Hnd].
           intros Hin. specialize (Hrange _ _ Hin). lia.
       + (* thread t reads *)
         rewrite (exec_read o s Ho). cbn [fst snd]. set (x := read_ans o s).
@@ -650,6 +657,54 @@ Section Interleave.
     destruct (feed p answers_i) as [[a'|]|] eqn:E; try discriminate. inversion Hres; subst a'.
     pose proof (feed_replay p answers_i a E) as Hrep. split; [exact Hrep|].
     eapply replay_interp_ids; eauto.
+  Qed.
+
+  (** the same for a thread that never looks up a stored request under an id allocated during the run (not even
+      its own): every answer to an operation other than OCreate is literally the answer on the INITIAL store *)
+  Fixpoint reads_in {A} (K : bytes -> Prop) (p : prog A) : Prop :=
+    match p with
+    | Ret _ => True
+    | Op o k => (forall id, req_key o = Some id -> K id) /\ forall x, reads_in K (k x)
+    end.
+  Fixpoint log_on_initial {A} (p : prog A) (s0 : store) (log : list ans) : Prop :=
+    match p with
+    | Ret _ => log = []
+    | Op o k =>
+      match log with
+      | [] => True
+      | x :: r => (if is_create o then exists n, x = AId (fresh n) else x = read_ans o s0) /\
+                  log_on_initial (k x) s0 r
+      end
+    end.
+  Lemma log_valid_on_initial {A} (p : prog A) : forall n0 loc s0 log ids,
+    reads_in (old_key n0) p -> agree (old_key n0) loc s0 -> (forall n, In n ids -> n0 <= n) ->
+    log_valid p loc log ids -> log_on_initial p s0 log.
+  Proof.
+    induction p as [a|o k IH]; intros n0 loc s0 log ids Hr Ha Hids Hv.
+    - cbn in *. tauto.
+    - destruct log as [|x r]; [exact I|]. destruct Hr as [Hk Hr]. cbn [log_on_initial].
+      destruct (is_create o) eqn:Ho.
+      + destruct o; try discriminate. cbn in Hv. destruct ids as [|n ids']; [contradiction|].
+        destruct Hv as [-> Hv]. split; [eauto|].
+        apply (IH _ n0 (write loc (fresh n) payload) s0 r ids'); auto.
+        * destruct Ha as (H1 & H2 & H3 & H4 & H5). repeat split; cbn; auto.
+          intros k0 Hk0. destruct (beq k0 (fresh n)) eqn:E; [|auto].
+          apply beq_eq in E. exfalso. apply (Hk0 n); [apply Hids; now left|exact E].
+        * intros m Hm. apply Hids. now right.
+      + apply (log_valid_read o k loc x r ids Ho) in Hv. destruct Hv as [-> Hv]. split.
+        * apply (read_ans_agree (old_key n0)); auto.
+        * apply (IH _ n0 loc s0 r ids); auto.
+  Qed.
+  Corollary isolation_with_creates_initial {A} (ps : pool A) (s0 : store) (sched : schedule) i p :
+    pool_all (reads_only_initial_keys (next s0)) ps ->
+    nth_error ps i = Some p -> reads_in (old_key (next s0)) p ->
+    log_on_initial p s0 (answers_of i (run_trace sched (ps, s0))).
+  Proof.
+    intros Hall Hi Hin. destruct (isolation_with_creates ps s0 sched Hall) as (idss & Hth & Hrange & _).
+    destruct (Hth i p Hi) as (Hv & _ & _).
+    apply (log_valid_on_initial p (next s0) s0 s0 _ (idss i)); auto.
+    - repeat split.
+    - intros n Hn. apply (Hrange i n Hn).
   Qed.
 
   (** [interp_ids] with the ids the thread gets when it runs alone IS the sequential semantics *)
@@ -778,6 +833,31 @@ Module Example3.
     result bytes 1 (fst final') = Some [AVal (b "sp-config"); AId (fresh 0)] /\
     result bytes 2 (fst final') = Some [AId (fresh 1); AVal (b "AuthnRequest#2"); AVal (b "signing-key")].
   Proof. vm_compute. repeat split. Qed.
+
+  (** the hypothesis of theorem 3 holds for this pool (thread 2 reads back only the id it was handed), so the
+      theorem applies to it for every schedule *)
+  Lemma old_request_old : old_key fresh 0 (b "old-request").
+  Proof. intros n _ E. unfold fresh in E. vm_compute in E. discriminate E. Qed.
+  Example pool3_reads_only_initial_keys : pool_all bytes (reads_only_initial_keys bytes fresh 0) pool3.
+  Proof.
+    intros i p H. destruct i as [|[|[|i]]]; cbn in H; try (destruct i; discriminate H);
+      inversion H; subst p; clear H; unfold reads_only_initial_keys; cbn.
+    - split; [exact old_request_old|]. intros r e. destruct e; cbn; auto.
+    - intros sp id. exact I.
+    - intros id. split; [now left|]. intros r key. exact I.
+  Qed.
+  Example pool3_isolated (sched : schedule) :
+    exists idss : nat -> list nat,
+      (forall i p, nth_error pool3 i = Some p ->
+         forall a, result bytes i (fst (run_sched bytes fresh sched (pool3, s0))) = Some a ->
+                   interp_ids bytes fresh p s0 (idss i) = Some a) /\
+      (forall i j n, In n (idss i) -> In n (idss j) -> i = j).
+  Proof.
+    destruct (isolation_with_creates bytes fresh fresh_inj pool3 s0 sched pool3_reads_only_initial_keys)
+      as (idss & Hth & _ & Hdisj & _).
+    exists idss. split; [|exact Hdisj]. intros i p Hi a Hres. destruct (Hth i p Hi) as (_ & _ & Hr).
+    now apply Hr.
+  Qed.
 End Example3.
 
 Print Assumptions reads_commute.
@@ -785,6 +865,7 @@ Print Assumptions isolation_readonly.
 Print Assumptions non_interference.
 Print Assumptions ids_distinct.
 Print Assumptions isolation_with_creates.
+Print Assumptions isolation_with_creates_initial.
 Print Assumptions interp_ids_sequential.
 Print Assumptions isolation_reader_among_creators.
 Print Assumptions Example3.three_threads.
